@@ -139,7 +139,7 @@ func suiteFaultOther(tier string, seed uint64) *Report {
 	alpha := map[string][]string{
 		"sen":       {"{", "}", "[", "]", "(", ")", ":", ",", "\"", "'", "+", "-", "1", "a", " ", "\n", "\\", "/", "#", "0x", "e", ".", "true", "null", "\x00", "\xef\xbb\xbf", "*", "`", "|", "\"a\"", "/*x*/", "//c\n"},
 		"jp":        {"$", "@", ".", "..", "[", "]", "(", ")", "?", "*", "'", "\"", "\\", ",", ":", "-", "1", "a", " ", "=", "<", ">", "!", "&", "|", "~", "/", "+", "x", "in", "has", "exists", "empty", "length", "count", "match", "search", "true", "null", "0.5", "\x00"},
-		"plan":      {"[", "]", "{", "}", "\"\"", "\"$.a\"", "\"@.b\"", "set", "get", "cond", "each", "sort", "at", "\"+\"", "lt", "1", "null", "true", " ", ":", "a", "\"$\"", "\"@\"", "join", "substr", "replace", "nth", "-1", "1.5"},
+		"plan":      {"[", "]", "{", "}", "\"\"", "\"$.a\"", "\"@.b\"", "set", "get", "cond", "each", "sort", "at", "\"+\"", "lt", "1", "null", "true", " ", ":", "a", "\"$\"", "\"@\"", "join", "substr", "replace", "nth", "-1", "1.5", "quotient", "mod", "0", "0.0", "/"},
 		"recompose": {"{", "}", "[", "]", "\"A\"", "\"B\"", "\"C\"", "\"D\"", "\"E\"", "\"F\"", "\"G\"", "\"H\"", ":", ",", "1", "\"x\"", "null", "true", "1.5", "-1", "\"^\"", "\"fuser\"", "99999999999999999999", "{}", "[]"},
 	}
 	valid := map[string][]string{
